@@ -266,7 +266,7 @@ func runC03(w *World, r *Report) {
 			r.OK("C03.classification-order-free", fmt.Sprintf("%d loops of package compose examined", loops), token.NoPos, "no set-only flag tested in a loop body")
 		}
 		if loops < 50 {
-			undecidedf("C03.classification-order-free: only %d loops found in package compose", loops)
+			r.Deferred = append(r.Deferred, fmt.Sprintf("C03.classification-order-free: only %d loops found in package compose", loops))
 		}
 	}
 
